@@ -4,6 +4,18 @@ import ALV.Spec.C02
 namespace ALV.Driver.C02
 open ALV ALV.J ALV.C02
 
+def getNum (j : Json) : Except String Num := do
+  let kind ← getStr (← field j "kind")
+  match kind with
+  | "int" => pure (.int (← getInt (← field j "v")))
+  | "bool" => pure (.bool (← getBool (← field j "v")))
+  | "frac" => pure (.frac (← getRat (← field j "v")))
+  | "float" => pure (.float (← getRat (← field j "v")))
+  | "inf" => pure (.inf false)
+  | "-inf" => pure (.inf true)
+  | "nan" => pure .nan
+  | _ => throw s!"C02: unknown number spelling {kind}"
+
 def getDesc (j : Json) : Except String Desc := do
   let m ← getStr (← field j "m")
   let nat (k : String) : Except String Nat := do getNat (← field j k)
@@ -23,8 +35,35 @@ def getDesc (j : Json) : Except String Desc := do
   | "cascade" => pure (.cascade (← nat "n"))
   | "resample" => pure (.resample (← nat "order") (← getRat (← field j "step")))
   | "smix" => pure (.smix (← getRat (← field j "delta")))
+  | "attack" =>
+    match optField j "n" with
+    | some n => pure (.attack (← getNat n))
+    | none => pure (.attack (durLen (← getNum (← field j "a")) + durLen (← getNum (← field j "d"))))
+  | "skipn" =>          -- `skip(n)` with a spelled count: `max(int(round(n)), 0)` is computed here
+    match roundCount (← getNum (← field j "n")) with
+    | .ok N => pure (.skip N)
+    | .error e => throw s!"C02: skip count raises {e}"
   | "resampleTV" => pure (.resampleTV (← nat "order") (← getList getRat (← field j "steps")))
   | _ => throw s!"C02: unknown stage model {m}"
+
+/-- a stage of a chain that may contain stopping stages; the count parameters arrive in their
+    Python SPELLING and are rounded here (`roundCount`); `Except.ok (Except.error e)` = the Python
+    exception `e` the model predicts for the constructor -/
+def getXDesc (j : Json) : Except String (Except String XDesc) := do
+  let m ← getStr (← field j "m")
+  let nat (k : String) : Except String Nat := do getNat (← field j k)
+  match m with
+  | "limit" =>
+    match roundCount (← getNum (← field j "n")) with
+    | .ok N => pure (.ok (.limit N))
+    | .error e => pure (.error e)
+  | "skipn" =>          -- `skip(n)` with a spelled count: `skipS (roundCount n)`
+    match roundCount (← getNum (← field j "n")) with
+    | .ok N => pure (.ok (.plain (.skip N)))
+    | .error e => pure (.error e)
+  | "takewhile" => pure (.ok (.takewhile (← nat "n")))
+  | "isliceStop" => pure (.ok (.islice (← nat "start") (← nat "stop") (← nat "step")))
+  | _ => pure (.ok (.plain (← getDesc j)))
 
 /-- number of outputs of a chain on a finite source of `n` items consumed to its end -/
 def chainOutLen (ds : List Desc) (n : Nat) : Nat :=
@@ -121,10 +160,44 @@ def handle (entry : String) (j : Json) : Except String Json := do
       ("spec0", natToJson (needOfChain ds 0)),
       ("aux_model", arr nats auxM), ("aux_spec", arr nats auxS),
       ("aux_need", nats (auxS.map fun l => l.getLast?.getD 0))]
-  | "take" =>
+  | "probe" =>
+    -- chain that may contain stopping stages; K requests INCLUDING failed ones (asked past the end)
+    let ds0 ← getList getXDesc (← field j "chain")
     let n ← getNat (← field j "n")
+    let K ← getNat (← field j "k")
+    match ds0.findSome? (fun d => match d with | .error e => some e | .ok _ => none) with
+    | some e => pure <| Json.mkObj [("build_err", Json.str e)]
+    | none =>
+    let ds := ds0.filterMap (fun d => match d with | .ok x => some x | .error _ => none)
+    if !ds.all (fun d => decide d.Valid) then throw "C02: stage parameters outside the modelled range"
+    let d := ds.length
+    let probes := (List.range d).map fun i =>
+      let srcLen := if i = 0 then n else chainXOutLen (ds.take i) n
+      chainProbe (ds.drop i) srcLen K
+    -- closed forms; an inner boundary cannot carry more than what is in front of it delivers
+    let specLevels := (List.range d).map fun i =>
+      let srcLen := if i = 0 then n else chainXOutLen (ds.take i) n
+      (List.range K).map fun k => min (needOfXChain (ds.drop i) (k + 1)) srcLen
+    pure <| Json.mkObj [
+      ("construct", natToJson (buildXChain ds).st.base.start.nread),
+      ("delivered", arr (fun (b : Bool) => Json.bool b) ((probes.getD 0 []).map (·.1))),
+      ("model", arr nats (probes.map fun p => p.map (·.2))),
+      ("spec", arr nats specLevels),
+      ("need", natToJson (needOfXChain ds K)),
+      ("cut", natToJson ((buildXChain ds).st.cut (List.replicate n ())))]
+  | "take" =>
+    -- `Stream.take(n)` / `peek(n)` with a spelled count on a source of `len` items
     let len ← getNat (← field j "len")
-    pure <| Json.mkObj [("model", natToJson (takeReads n len)), ("spec", natToJson (min n len))]
+    match optField j "num" with
+    | some nj =>
+      match takeCount (← getNum nj) with
+      | .error e => pure <| Json.mkObj [("err", Json.str e)]
+      | .ok none => pure <| Json.mkObj [("model", natToJson len), ("spec", natToJson len)]
+      | .ok (some n) =>
+        pure <| Json.mkObj [("model", natToJson (takeReads n len)), ("spec", natToJson (min n len))]
+    | none =>
+      let n ← getNat (← field j "n")
+      pure <| Json.mkObj [("model", natToJson (takeReads n len)), ("spec", natToJson (min n len))]
   | "peek" =>
     let n ← getNat (← field j "n")
     let K ← getNat (← field j "k")
